@@ -148,6 +148,65 @@ Proof.
 Qed.
 Print Assumptions latex_rows_names_refuted.
 
+(* ---- from tokens to literals ---- *)
+
+(* the inverse of the literal table: a literal token decodes to the polarity and
+   the variable name of its literal -- for names that do not begin with \overline{
+   (any other name, white space or braces inside included) *)
+Theorem latex_lit_token_inverse : forall names l tok,
+  latex_names_decodable names = true ->
+  lit_token names l = Some tok ->
+  exists pl, lit_name names l = Some pl /\ decode_lit tok = Some pl /\
+             exists ch r, tok = ch :: r /\ is_digit ch = false.
+Proof. exact decode_lit_token. Qed.
+Print Assumptions latex_lit_token_inverse.
+
+(* the condition is needed: {\overline{x}_1} is both the positive literal of the
+   name "\overline{x}_1" and the negative literal of the name "x_1" *)
+Theorem latex_lit_token_ambiguous : exists names,
+  lit_token names 1 = lit_token names (-2) /\ lit_name names 1 <> lit_name names (-2).
+Proof. exists [lit "\overline{x}_1"; lit "x_1"]. split; [vm_compute; reflexivity|vm_compute; discriminate]. Qed.
+Print Assumptions latex_lit_token_ambiguous.
+
+(* the rows of the text, read as LITERALS: for every row split and both layouts
+   the align blocks decode to one row per clause / constraint, in order, and the
+   tokens of each row decode to exactly the literals of that clause / constraint
+   as (polarity, variable name) -- for constraints with the coefficient as shown
+   (none when it does not exceed 1), the relation and the bound; formula_litrows
+   is computed from the formula in memory and the names only *)
+Theorem latex_rows_literals : forall names split compact f t,
+  latex_names_ok names = true -> latex_names_decodable names = true ->
+  print_latex names split compact f = Some t ->
+  exists rows lrows,
+    rows_of_latex (is_opb f) t = (negb (nonempty rows), rows) /\
+    formula_litrows names f = Some lrows /\
+    map decode_lrow rows = map Some lrows.
+Proof. exact latex_rows_literals_proved. Qed.
+Print Assumptions latex_rows_literals.
+
+Theorem latex_literal_row_count : forall names f lrows,
+  formula_litrows names f = Some lrows -> length lrows = length (constraints f).
+Proof. exact formula_litrows_length. Qed.
+Print Assumptions latex_literal_row_count.
+
+Example latex_rows_literals_nonvacuous :
+  let names := [lit "x_1"; lit "y"; lit "z^2_3"; lit "_u_v"; lit "{a}b"] in
+  latex_names_ok names = true /\ latex_names_decodable names = true /\
+  formula_litrows names (FCnf 5 [[1; -2]; []; [-1; 3; -4]; [-3; -5; 5]]) =
+    Some [LClause [(true, lit "x_1"); (false, lit "y")]; LSquare;
+          LClause [(false, lit "x_1"); (true, lit "z^2_3"); (false, lit "_u_v")];
+          LClause [(false, lit "z^2_3"); (false, lit "{a}b"); (true, lit "{a}b")]] /\
+  option_map (fun t => map decode_lrow (snd (rows_of_latex false t)))
+             (print_latex names 2 true (FCnf 5 [[1; -2]; []; [-1; 3; -4]; [-3; -5; 5]])) =
+    Some [Some (LClause [(true, lit "x_1"); (false, lit "y")]); Some LSquare;
+          Some (LClause [(false, lit "x_1"); (true, lit "z^2_3"); (false, lit "_u_v")]);
+          Some (LClause [(false, lit "z^2_3"); (false, lit "{a}b"); (true, lit "{a}b")])] /\
+  option_map (fun t => map decode_lrow (snd (rows_of_latex true t)))
+             (print_latex names 35 false (FOpb 5 [mkpbc [(2, -1); (1, 3); (12, -3)] PGe 2; mkpbc [] PEq 0])) =
+    Some [Some (LConstraint [(lit "2", (false, lit "x_1")); ([], (true, lit "z^2_3")); (lit "12", (false, lit "z^2_3"))] PGe (lit "2"));
+          Some (LConstraint [] PEq (lit "0"))].
+Proof. vm_compute. repeat split. Qed.
+
 (* one row per clause / constraint *)
 Theorem latex_row_count : forall names f rows,
   formula_lrows names f = Some rows -> length rows = length (constraints f).
